@@ -113,6 +113,30 @@ class CustomDemeB(CustomDeme):
     """A second deme class for the same custom config class (used by another tree of the same process)."""
 
 
+class CustomFineConfig(CustomLevelConfig):
+    """A second user config class, derived from the first one and registered (after it) with its own deme class."""
+
+
+class CustomFineDeme(CustomDeme):
+    """(mu + lambda) evolution strategy written with the public Individual.clone(): a generation holds parents next
+    to their clones."""
+
+    def _run_step(self):
+        if not self._history:
+            return super()._run_step()
+        parents = self._history[-1][-1]
+        sigma = 0.1 * (self.upper_bounds - self.lower_bounds)
+        children = []
+        for p in parents:
+            c = p.clone()
+            c.genome = np.clip(p.genome + np.random.normal(0.0, sigma), self.lower_bounds, self.upper_bounds)
+            children.append(c)
+        Individual.evaluate_population(children)
+        pool = list(parents) + children
+        pool.sort(key=lambda i: i.fitness, reverse=bool(self._problem.maximize))
+        return pool[: self._pop_size]
+
+
 class CustomEAConfig(EALevelConfig):
     """A user's config class derived from a built-in one, registered with its own deme class."""
 
@@ -240,6 +264,9 @@ def build_stack(plan, stack_spec, fun, bounds):
         else:
             raise ValueError(k)
         layers.append(p)
+    for _ in range(int(stack_spec.get("pre_evals_top", 0))):
+        # a long-lived stack: the whole of it was used (a lot) before this tree was built around it
+        p.evaluate(np.array([(lo + hi) / 2.0 for lo, hi in bounds], dtype=float))
     return p, layers
 
 
@@ -328,6 +355,8 @@ def build_level(spec, problem, share_key=None):
         return LHSLevelConfig(problem=problem, lsc=lsc, pop_size=int(spec["pop_size"]))
     if e == "sobol":
         return SobolLevelConfig(problem=problem, lsc=lsc, pop_size=int(spec["pop_size"]))
+    if e == "custom" and spec.get("custom_fine"):
+        return CustomFineConfig(problem=problem, lsc=lsc, pop_size=int(spec["pop_size"]))
     if e == "custom":
         return CustomLevelConfig(problem=problem, lsc=lsc, pop_size=int(spec["pop_size"]))
     raise ValueError(e)
@@ -451,6 +480,9 @@ def build_config(plan):
     reg = {}
     if any(ls["engine"] == "custom" for ls in plan["levels"]):
         reg[CustomLevelConfig] = CustomDemeB if plan.get("custom_variant") == "B" else CustomDeme
+    if any(ls.get("custom_fine") for ls in plan["levels"]):
+        reg.setdefault(CustomLevelConfig, CustomDeme)  # the base class is registered first, the derived one after it
+        reg[CustomFineConfig] = CustomFineDeme
     if any(ls.get("custom_derived") for ls in plan["levels"]):
         reg[CustomEAConfig] = CustomEADeme
     if reg:
